@@ -142,6 +142,10 @@ def _mid(task_id: str) -> int:
         return 0
 
 
+class PlainRx:
+    """A plain class used as an annotation: nothing converts to it, values for such a parameter arrive as they were sent."""
+
+
 class SyncHold:
     """A synchronous task function that is still running in a worker thread; quacks like the futures in Env.body_fut."""
 
@@ -518,17 +522,17 @@ def make_tasks(env: Env, broker: ScriptedBroker, cfg: Dict[str, Any]) -> None:
         return finish_body(i, m, mc.get("outcome", "ret"))
 
     # plain tasks (no dependency graph at all)
-    async def ta0(i: int, v: Any = None, w: int = 0) -> Any:
+    async def ta0(i: int, v: Any = None, w: int = 0, z: PlainRx = None) -> Any:  # type: ignore[assignment]
         return await body_async(i, 0, v, w)
 
-    def ts0(i: int, v: Any = None, w: int = 0) -> Any:
+    def ts0(i: int, v: Any = None, w: int = 0, z: PlainRx = None) -> Any:  # type: ignore[assignment]
         return body_sync(i, 0, v, w)
 
-    async def tlate(i: int, v: Any = None, w: int = 0) -> Any:
+    async def tlate(i: int, v: Any = None, w: int = 0, z: PlainRx = None) -> Any:  # type: ignore[assignment]
         return await body_async(i, 0, v, w)
     env.late_task = tlate
     if cfg.get("late_sync_first"):
-        def tlate_sync(i: int, v: Any = None, w: int = 0) -> Any:
+        def tlate_sync(i: int, v: Any = None, w: int = 0, z: PlainRx = None) -> Any:  # type: ignore[assignment]
             return body_sync(i, 0, v, w)
         broker.register_task(tlate_sync, task_name="tlate")
     if not cfg.get("synconly"):
@@ -536,7 +540,7 @@ def make_tasks(env: Env, broker: ScriptedBroker, cfg: Dict[str, Any]) -> None:
     broker.register_task(ts0, task_name="ts0")
 
     # tasks with Context + configured dependencies
-    params = ["i: int", "v: Any = None", "ctx: Context = TaskiqDepends()", "w: int = 0"]
+    params = ["i: int", "v: Any = None", "ctx: Context = TaskiqDepends()", "w: int = 0", "z: PlainRx = None"]
     for k in top:
         uc = "True" if by_id[k]["cached"] else "False"
         params.append(f"k{k}=TaskiqDepends(FNS[{k}], use_cache={uc})")
@@ -558,7 +562,7 @@ def make_tasks(env: Env, broker: ScriptedBroker, cfg: Dict[str, Any]) -> None:
 
     glb = {
         "FNS": fns, "Context": Context, "TaskiqDepends": TaskiqDepends, "BODY_A": body_async, "Any": Any,
-        "BODY_S": body_sync, "MID": _mid, "__name__": __name__, "GETCTX": get_ctx, "CTXS": env.ctxs,
+        "BODY_S": body_sync, "MID": _mid, "__name__": __name__, "GETCTX": get_ctx, "CTXS": env.ctxs, "PlainRx": PlainRx,
     }
     exec(src, glb)  # noqa: S102
     if not cfg.get("synconly"):
@@ -611,7 +615,7 @@ def build_messages(env: Env, broker: ScriptedBroker, cfg: Dict[str, Any]) -> Non
                     del wire_types["lbl"]
             tm = TaskiqMessage(
                 task_id=f"m{mc.get('tid') or idx}", task_name=name, labels=wire_labels, labels_types=wire_types,
-                args=[idx, ARG_POOL[idx % len(ARG_POOL)]], kwargs={"w": "5"},
+                args=[idx, ARG_POOL[idx % len(ARG_POOL)]], kwargs=({"w": "5", "z": {"q": idx}} if idx % 3 == 0 else {"w": "5"}),
             )
             env.msg_labels[idx] = dict(labels)
             data = broker.formatter.dumps(tm).message
